@@ -64,6 +64,13 @@ def check_dispatch(ctx, md, params, result_adt, rule="R-1"):
     return by_label
 
 
+def _decoder_full(fn, pv, path):
+    """the resolved `<T as AsCborValue>::from_cbor_value` behind a call of `path` in fn (generic impls print as <..<T>..>)"""
+    from lib.facts import callee_path, callee_full
+    fulls = {callee_full(t) for bb, t in fn.calls() if callee_path(t) == path}
+    return next(iter(fulls)) if len(fulls) == 1 else None
+
+
 def value_is_entry(md, t):
     return md.sym(t) == ("sym", "value")
 
@@ -108,17 +115,22 @@ def check(ctx):
                 v = sym(effs[0][1]["value"])
                 ok = v[0] == "tryok" and is_call(v[1], codec.TRY_NONEMPTY) and v[1][2] == (V,)
         elif shape.startswith("nonempty-array<"):
+            # what this arm appends to the field, as a sequence value: the entry's array decoded element by element in order
             want_ty = shape[len("nonempty-array<"):-1]
-            if len(effs) == 1 and effs[0][1]["kind"] == "call" and effs[0][1]["callee"] == codec.VEC_PUSH:
-                a = sym(effs[0][1]["args"][1])
-                if a[0] == "tryok" and is_call(a[1]) and len(a[1][2]) == 1:
-                    el = a[1][2][0]
-                    src = _loop_source(el)
-                    full = full_of(fn, a[1])
+            from lib.seq import Seq, show_seq, X
+            calls = [e for _, e in effs if e["kind"] == "call"]
+            if calls and len(calls) == len(effs):
+                s = Seq(fn, pv).contribution(calls, md.next_bb)
+                det["sequence"] = show_seq(s)[:200]
+                if s[0] == "map" and s[2][0] == "elems" and s[2][2] == 0 and s[2][3] is None:
+                    F, src = s[1], sym(s[2][1])
+                    full = None
+                    if F[0] == "tryok" and is_call(F[1]) and F[1][2] == (X,):
+                        full = full_of(fn, F[1])
                     ok = (src == ("field", ("variant", V, "Array"), "0")
                           and full == "<%s as common::AsCborValue>::from_cbor_value" % want_ty)
                     det["decoder"] = full
-                    det["element_source"] = show(src) if src else None
+                    det["element_source"] = show(src)
         elif shape == "signature-or-nonempty-array":
             ok, d2 = _countersig(prog, md, effs)
             det.update(d2)
